@@ -460,6 +460,13 @@ func (mi *MinerIterator) Current() (*types.Miner, error) {
 		return nil, err
 	}
 
+	// a registry entry is a miner record only when it is stored under its own id: the account slot holds
+	// caller-chosen bytes, which may read as a miner json naming another miner
+	if !bytes.Equal(mi.iterator.Key, miner.Id) {
+		err = errors.New("not a miner record")
+		return nil, err
+	}
+
 	key := common.Sha256(miner.Id)
 	miner.Stake = utility.ByteToUInt64(mi.accountdb.GetData(mi.db, key))
 	key = common.Sha256(key)
